@@ -971,14 +971,77 @@ def rule_fs_match_links(ctx: Ctx, rule: str) -> None:
     ctx.ob(rule, '_wcmatch:_Match._fs_match/inspect-all-captures', ok, repo.loc('_wcmatch', loops[0] if loops else fm.node),
            'if m: … if not follow: for i, star in enumerate(m.groups(), 1)', norm_src(loops[0].iter) if loops else 'none',
            witness="globmatch('link/x', '**/x', G, REALPATH) must be False when link is a symlinked directory")
-    chk = [n for n in walk_no_nested(fm.node) if isinstance(n, ast.If) and 'at_end' in norm_src(n.test) and 'last_part' in norm_src(n.test)]
-    ok2 = len(chk) == 1 and equivalent_tests(chk[0].test, 'not at_end or j != last_part')
-    ctx.ob(rule, '_wcmatch:_Match._fs_match/which-parts', ok2, repo.loc('_wcmatch', chk[0] if chk else fm.node), 'lstat a part iff ¬at_end ∨ it is not the last part',
-           norm_src(chk[0].test) if chk else 'none', witness="globmatch('link', '**', G, REALPATH) is True: `**` matches the symlink itself")
-    ae = [s for s in walk_no_nested(fm.node) if isinstance(s, ast.Assign) and norm_src(s.targets[0]) == 'at_end']
-    en = [s for s in walk_no_nested(fm.node) if isinstance(s, ast.Assign) and norm_src(s.targets[0]) == 'end']
-    ok3 = len(ae) == 1 and norm_src(ae[0].value) == 'm.end(i) == end' and len(en) == 1 and norm_src(en[0].value) == 'len(filename) - 1'
-    ctx.ob(rule, '_wcmatch:_Match._fs_match/at_end', ok3, repo.loc('_wcmatch', fm.node), 'at_end = m.end(i) == len(filename) - 1', str(ok3))
+    from .common import tabulate_method
+    from ..symeval import focus, _tag
+    import re as _re
+    pars = [x for x in fm.params() if x != 'self']
+    if pars != ['pattern', 'filename', 'is_win', 'follow', 'symlinks', 'root', 'dir_fd']:
+        raise AnalysisError(f'_fs_match: parameters changed: {pars}')
+    rows = []
+    for pt in (0, 1):
+        _ev, ps = tabulate_method(repo, '_wcmatch', '_Match._fs_match', {'ptype': pt}, [Opaque(x) for x in pars], inline=False, max_paths=50000)
+        rows += ps
+    M_ = 'pattern.fullmatch(filename)'
+    bad_w, bad_e, bad_d = [], [], []
+    n_in = 0
+    for p in rows:
+        focus(p)
+        d = p.decisions
+        ae = [(k, v) for k, v in d.items() if '.end(' in k and k.endswith(' == (len(filename)-1)')]
+        lp = [(k, v) for k, v in d.items() if k.startswith('elem(enumerate(') and ' == len(' in k]
+        gets = [e for e in p.of('call') if e[1] == 'symlinks.get']
+        inner = any(c and c[-1].startswith('for:enumerate(') and len(c) == 2 for c in (e[-1] for e in p.events if e[0] in ('call', 'setitem') and isinstance(e[-1], tuple)))
+        if not ae and not gets:
+            continue
+        if len(ae) != 1 or ae[0][0] != f'{M_}.end(elem(enumerate({M_}.groups(), 1))[0]) == (len(filename)-1)':
+            bad_e.append(f'end-of-path test: {[k for k, _v in ae]}')
+            continue
+        if d.get('follow') is not False or d.get(M_) is not True:
+            bad_w.append('links inspected although follow / no match')
+        last = lp[0][1] if lp else None
+        skip = ae[0][1] is True and last is True
+        if ae[0][1] is True and last is None and not gets:
+            continue  # the per-part loop body was not entered on this row
+        n_in += 1
+        if bool(gets) == skip or (ae[0][1] is True and last is None):
+            bad_w.append(f'capture-at-end={ae[0][1]} last-part={last}: {len(gets)} link lookup(s)')
+            continue
+        if not gets:
+            continue
+        key = gets[0][2][0]
+        if not (isinstance(key, tuple) and len(key) == 2 and key[0] == Opaque('dir_fd')) or len(gets) != 1:
+            bad_d.append(f'cache key {_tag(key)[:80]}')
+            continue
+        B = key[1]
+        miss = [v for k, v in d.items() if k.startswith('symlinks.get(') and k.endswith(' is not None')]
+        fs = [e for e in p.of('call') if e[1] in ('os.path.islink', 'os.lstat')]
+        sets = [e for e in p.of('setitem') if e[1] == Opaque('symlinks')]
+        if miss == [True]:
+            if fs or sets:
+                bad_d.append('cached verdict but the file system is asked / the cache rewritten')
+            continue
+        if miss != [False]:
+            bad_d.append(f'cache test {miss}')
+            continue
+        nofd = d.get('dir_fd is not None')
+        if nofd is False:
+            okf = len(fs) == 1 and fs[0][1] == 'os.path.islink' and fs[0][2] == [B]
+            val = f'os.path.islink({_tag(B)})'
+        else:
+            okf = len(fs) == 1 and fs[0][1] == 'os.lstat' and fs[0][2] == [B] and fs[0][3] == {'dir_fd': Opaque('dir_fd')}
+            val = None
+        oks = len(sets) == 1 and sets[0][2] == key and (val is None and (sets[0][3] is False or _tag(sets[0][3]).startswith('stat.S_ISLNK(os.lstat(')) or
+                                                         val is not None and _tag(sets[0][3]) == val)
+        if not okf or not oks or nofd is None:
+            bad_d.append(f'dir_fd given={nofd}: fs calls {[(e[1], [_tag(x)[:30] for x in e[2]]) for e in fs]}, cached {[_tag(e[3])[:40] for e in sets]}')
+    if n_in < 8:
+        raise AnalysisError(f'_fs_match: only {n_in} rows enter the per-part inspection')
+    ctx.ob(rule, '_wcmatch:_Match._fs_match/which-parts', not bad_w, repo.loc('_wcmatch', fm.node), 'a part is inspected iff not (the capture ends the path and it is the last part), only when not follow and matched',
+           f'{n_in} rows agree' if not bad_w else sorted(set(bad_w))[0], witness="globmatch('link', '**', G, REALPATH) is True: `**` matches the symlink itself")
+    ctx.ob(rule, '_wcmatch:_Match._fs_match/at_end', not bad_e, repo.loc('_wcmatch', fm.node), 'capture ends the path iff m.end(i) == len(filename) - 1', 'as expected' if not bad_e else bad_e[0][:200])
+    ctx.ob(rule, '_wcmatch:_Match._fs_match/is_link-definitions', not bad_d, repo.loc('_wcmatch', fm.node),
+           'verdict = cache[(dir_fd, base)], else os.path.islink(base) (no dir_fd) / S_ISLNK(os.lstat(base, dir_fd=dir_fd)) or False on error, written back to the cache',
+           'as expected' if not bad_d else sorted(set(bad_d))[0][:220], witness="globmatch(..., dir_fd=fd) must lstat relative to the descriptor")
     res = [s for s in walk_no_nested(fm.node) if isinstance(s, ast.Assign) and norm_src(s) == 'matched = not is_link']
     ctx.ob(rule, '_wcmatch:_Match._fs_match/link-fails-match', len(res) == 1, repo.loc('_wcmatch', fm.node), 'matched = not is_link', str(len(res)))
     # once a symlink has been found the verdict is final: every loop around the assignment is left at once
@@ -992,11 +1055,20 @@ def rule_fs_match_links(ctx: Ctx, rule: str) -> None:
         ctx.ob(rule, '_wcmatch:_Match._fs_match/link-verdict-is-final', len(encl) == 2 and all(leaves), repo.loc('_wcmatch', res[0]),
                '`if not matched: break` in both the per-part loop and the per-capture loop', f'loops={len(encl)}, leaves={leaves}',
                witness="globmatch('link/x/real/deep/y.txt', '**/x/**/*.txt', G, REALPATH) must be False: a later symlink-free `**` must not revive the match")
-    lk = sorted(norm_src(s.value) for s in walk_no_nested(fm.node) if isinstance(s, ast.Assign) and norm_src(s.targets[0]) == 'is_link')
-    want = sorted(['symlinks.get(key, None)', 'os.path.islink(base)', 'False', 'stat.S_ISLNK(st.st_mode)'])
-    ctx.ob(rule, '_wcmatch:_Match._fs_match/is_link-definitions', lk == want, repo.loc('_wcmatch', fm.node), str(want), str(lk))
-    base = [s for s in walk_no_nested(fm.node) if isinstance(s, ast.Assign) and norm_src(s.targets[0]) == 'base']
-    vals = sorted(norm_src(s.value) for s in base)
-    okb = vals == sorted(['None', 'os.path.join(root, filename[:m.start(i)])', 'os.path.join(base, part)'])
-    ctx.ob(rule, '_wcmatch:_Match._fs_match/base-rooted', okb, repo.loc('_wcmatch', fm.node), 'base starts at os.path.join(root, <prefix before the capture>)', str(vals),
+    # the inspected path is built on the root: base := join(root, <name up to the capture>), then join(base, part) per part
+    fsargs = {norm_src(c.args[0]) for c in walk_no_nested(fm.node) if isinstance(c, ast.Call) and norm_src(c.func) in ('os.path.islink', 'os.lstat') and c.args}
+    okb = len(fsargs) == 1 and next(iter(fsargs)).isidentifier()
+    vals = []
+    if okb:
+        bn = next(iter(fsargs))
+        base = [s for s in walk_no_nested(fm.node) if isinstance(s, ast.Assign) and norm_src(s.targets[0]) == bn]
+        vals = sorted(norm_src(s.value) for s in base)
+        outer = [l for l in walk_no_nested(fm.node) if isinstance(l, ast.For) and '.groups()' in norm_src(l.iter)]
+        inner = [l for o in outer for l in ast.walk(o) if isinstance(l, ast.For) and l is not o]
+        mname = next((norm_src(s.targets[0]) for s in walk_no_nested(fm.node) if isinstance(s, ast.Assign) and norm_src(s.value) == 'pattern.fullmatch(filename)'), None)
+        okb = len(outer) == 1 and len(inner) == 1 and mname is not None and isinstance(outer[0].target, ast.Tuple) and isinstance(inner[0].target, ast.Tuple)
+        if okb:
+            idx, part = norm_src(outer[0].target.elts[0]), norm_src(inner[0].target.elts[1])
+            okb = vals == sorted(['None', f'os.path.join(root, filename[:{mname}.start({idx})])', f'os.path.join({bn}, {part})'])
+    ctx.ob(rule, '_wcmatch:_Match._fs_match/base-rooted', okb, repo.loc('_wcmatch', fm.node), 'base starts at os.path.join(root, <prefix before the capture>) and grows by one part', str(vals),
            witness="globmatch('a/link/x', 'a/**/x', G, REALPATH, root_dir=r) must lstat r/a/link")
